@@ -27,7 +27,7 @@ GROUP = dict(
                   'ordered oppositely both orders are preserved; everything else of the class (equal on both sides) is unchanged.',
              bound='fields, then methods: ' + _LISTS + ' with keys (a,I) (a,J) (b,I) (c,I) resp. (a,()V) (a,(I)V) (b,()V) (c,()V) (same name, different descriptor included), '
                    'every subset of the shared members differing in access flags and annotations, x 2 class shells (plain; rich: version 61, abstract, own super class, Deprecated, SourceFile, Signature, '
-                   'a visible and an invisible annotation, an unknown attribute); the other member kind has one client-only, one shared and one server-only member; 4 x 17 497 = 69 988 cases'),
+                   'a visible and an invisible annotation, an unknown attribute); the other member kind has one client-only, one shared and one server-only member; 2 x 2 x 26 669 = 106 676 cases (26 669 = sum over the 4225 list pairs of 2^(shared members))'),
         dict(name='class_interfaces_and_inner_records', props=['C13'], tier='quick', timeout=300,
              text='the same for interfaces (one-sided interfaces listed with their side in the interface marker, exactly once, shared ones not listed, nothing else listed, orders preserved when compatible) '
                   'and for the records of the InnerClasses attribute (every record of either side exactly once, unchanged, unmarked).',
@@ -57,12 +57,12 @@ GROUP = dict(
              bound='all pairs of jars over META-INF/MOJANG_C.SF, META-INF/MOJANG_C.DSA, META-INF/SERVER.EC, B.class each absent / present; 256 pairs'),
         dict(name='jar_entries_in_every_order', props=['C13'], tier='quick', timeout=300,
              text='the same rules whatever the order of the entries inside the two jars, classes handed over as bytes or as trees.',
-             bound='4 names (B.class differing, net/minecraft/A.class, com/lib/L.class, assets/x.txt identical) each on both sides / client only / server only (81 patterns) x 24 x 24 entry orders x {bytes, trees}, '
-                   'a signature file in the middle of the client jar; 93 312 cases'),
+             bound='3 names (B.class differing between the sides, com/lib/L.class and assets/x.txt identical) each on both sides / client only / server only (27 patterns) x 6 x 6 entry orders x {bytes, trees}, '
+                   'a signature file in the middle of the client jar; 1944 cases'),
         dict(name='jar_zip_archives_in_and_out', props=['C13'], tier='quick', timeout=300,
              text='the same rules when the jars are zip archives in memory (written by the harness with the zip crate; read by dukebox through storage/zip_impls.rs), one side a zip archive and the other a ParsedJar, '
                   'and again after the result is written with ParsedJar::to_mem and read back by the harness with the zip crate (every name once in the archive, passed-through classes still byte-identical).',
-             bound='all pairs of jars over net/ (directory entry), net/minecraft/A.class (rich shell) in {absent, v0 with unused constant, v1}, com/lib/L.class in {absent, v0, v1}, assets/x.txt in {absent, "one", "two"}, '
-                   'META-INF/MOJANGCS.SF absent / present; 4 x 9 x 9 x 9 x 4 = 11 664 pairs, input form (zip+zip, zip+parsed, parsed+zip) rotating'),
+             bound='all pairs of jars over net/ (directory entry) absent / present, net/minecraft/A.class (rich shell) in {absent, v0 with unused constant, v1}, com/lib/L.class absent / v0, assets/x.txt in {absent, "one", "two"}, '
+                   'META-INF/MOJANGCS.SF absent / present; 4 x 9 x 4 x 9 x 4 = 5184 pairs; input form (zip+zip, zip+parsed, parsed+zip) and compression of the input archives (deflated, stored) rotate with the case number'),
         dict(name='canary_must_fail', props=[], canary=True, text='must fail', bound=''),
     ])
